@@ -54,6 +54,22 @@ def _vc_key(ob):
     return h.hexdigest()
 
 
+def run_selftest(functions):
+    """tools/selftest.py restricted to the functions of one property (scratch copy of the repository, removed afterwards)."""
+    import subprocess
+    if not functions:
+        return None
+    try:
+        r = subprocess.run(["python3-vt", os.path.join(ROOT, "tools", "selftest.py"), "--only", ",".join(functions)],
+                           capture_output=True, text=True, timeout=7200, cwd=ROOT)
+    except (OSError, subprocess.TimeoutExpired) as e:
+        return {"status": "error", "message": str(e), "survived": 0, "mutants": 0}
+    lines = [l for l in r.stdout.splitlines() if l.startswith(("CAUGHT", "SURVIVED", "SKIP"))]
+    return {"status": "ok", "mutants": len(lines), "caught": sum(l.startswith("CAUGHT") for l in lines),
+            "survived": sum(l.startswith("SURVIVED") for l in lines), "skipped": sum(l.startswith("SKIP") for l in lines),
+            "lines": [l[:160] for l in lines]}
+
+
 def check_theory(path, tier):
     """Lean 4 / Mathlib file with the finite-sum facts the congruence prover relies on."""
     import hashlib
@@ -389,6 +405,13 @@ def run_property(pid, tier="quick", seed=0, update_ledger=False, verbose=False):
         if theory["status"] != "ok":
             crashed.append(f"theory file {p['theory']}: {theory['message']}")
 
+    # thorough tier: engine self-test - one-line breaks of this property's functions on a scratch copy must fail an obligation
+    selftest = None
+    if tier == "thorough" and os.environ.get("VERIF_NO_SELFTEST") != "1":
+        selftest = run_selftest(p.get("functions", []))
+        if selftest and selftest.get("survived"):
+            crashed.append(f"engine self-test: {selftest['survived']} mutant(s) survived: {selftest.get('lines')}")
+
     os.makedirs(os.path.join(ROOT, "replays"), exist_ok=True)
     for i, (fn, nm, o) in enumerate(violations):
         rp = os.path.join(ROOT, "replays", f"{pid}_{i}.json")
@@ -468,6 +491,7 @@ def run_property(pid, tier="quick", seed=0, update_ledger=False, verbose=False):
             "rule": "one evaluation = one generated obligation or one natively executed contract case; distinct = distinct obligation names + functions exercised natively",
             "native_cases": n_bounded,
             "theory_file": theory,
+            "engine_selftest": selftest,
         },
         "assumptions": assumptions, "wall_s": round(wall, 2), "violations": sum(1 for l in lines if l.startswith("VIOLATION")),
     }
